@@ -125,18 +125,27 @@ def eptMapResultPack (r : EptMapResult) : R Bytes := do
   let st ← le r.status 4
   pure (eh ++ n4 ++ n8 ++ Py.zeros 8 ++ n8 ++ refs ++ ts.flatten ++ st)
 
-/-- the tower loop of `EptMapResult.unpack` (as repaired: stops when fewer than 14 bytes remain) -/
+/-- one iteration of the tower loop of `EptMapResult.unpack` (as repaired: stops when fewer than 14
+    bytes remain): the tower and the remaining view -/
+def towerStep (v : Bytes) : R (List Floor × Bytes) :=
+  if v.length < 14 then .error .valueError
+  else do
+    let towerLength := Py.fromLE (Py.sliceN v 0 8)
+    let pad := Py.negMod (towerLength + 4) 8
+    let floorLen := Py.fromLE (Py.sliceN v 12 14)
+    let (tower, w) ← floorsUnpack floorLen (v.drop 14)
+    pure (tower, w.drop pad)
+
+/-- `for _ in range(tower_count):` -/
 def towersUnpack : Nat → Bytes → R (List (List Floor))
   | 0, _ => .ok []
   | n + 1, v =>
-    if v.length < 14 then .error .valueError
-    else do
-      let towerLength := Py.fromLE (Py.sliceN v 0 8)
-      let pad := Py.negMod (towerLength + 4) 8
-      let floorLen := Py.fromLE (Py.sliceN v 12 14)
-      let (tower, w) ← floorsUnpack floorLen (v.drop 14)
-      let rest ← towersUnpack n (w.drop pad)
-      pure (tower :: rest)
+    match towerStep v with
+    | .error e => .error e
+    | .ok (tower, rest) =>
+      match towersUnpack n rest with
+      | .error e => .error e
+      | .ok ts => .ok (tower :: ts)
 
 def eptMapResultUnpack (v : Bytes) : R EptMapResult := do
   let status := Py.fromLE (Py.sliceFrom v (-4))
@@ -146,11 +155,17 @@ def eptMapResultUnpack (v : Bytes) : R EptMapResult := do
   let towers ← towersUnpack towerCount w
   pure ⟨eh, towers, status⟩
 
+/-- the port of the first TCP floor of a tower -/
+def towerTcp : List Floor → Option Nat
+  | [] => none
+  | .tcp p :: _ => some p
+  | _ :: rest => towerTcp rest
+
 /-- `_process_ept_map_result`: the TCP port of the first tower that has a TCP floor -/
 def firstTcp : List (List Floor) → Option Nat
   | [] => none
   | t :: ts =>
-    match t.findSome? (fun f => match f with | .tcp p => some p | _ => none) with
+    match towerTcp t with
     | some p => some p
     | none => firstTcp ts
 
